@@ -1,4 +1,60 @@
-import ErgoModel.Exec
+/-
+  C02 — Concurrent commands are serializable; acknowledged writes are never lost.
+-/
+import ErgoProofs.Lemmas.ConcReach
 namespace Ergo
-theorem C02_placeholder : True := trivial
+open Proc
+
+/-- the log is exactly the committed sections applied one after the other in commit (= lock = real-time) order -/
+theorem C02_log_is_serial_fold {log0 : List Event} {ws : List (List Event → Except CmdErr Write)} {nr : Nat} {s : Sys}
+    (h : Reachable (Sys.init log0 ws nr) s) : s.log = logAfter log0 s.commits s.commits.length :=
+  log_is_fold h
+
+/-- each committed section decided on exactly the log its predecessors left: no lost update, no stale read -/
+theorem C02_each_commit_decided_on_predecessors {log0 : List Event} {ws : List (List Event → Except CmdErr Write)} {nr : Nat} {s : Sys}
+    (h : Reachable (Sys.init log0 ws nr) s) (i p : Nat) (snap : List Event) (w : Write)
+    (hc : s.commits[i]? = some (p, snap, w)) :
+    snap = logAfter log0 s.commits i ∧ ∃ d, ws[p]? = some d ∧ d snap = .ok w :=
+  commit_decided h i p snap w hc
+
+/-- every acknowledged mutation is in effect exactly once -/
+theorem C02_acknowledged_exactly_once {log0 : List Event} {ws : List (List Event → Except CmdErr Write)} {nr : Nat} {s : Sys}
+    (h : Reachable (Sys.init log0 ws nr) s) (p : Nat) (w : Writer) (snap : List Event) (wr : Write)
+    (hw : s.writers[p]? = some w) (hp : w.phase = .finished (.ok snap wr)) :
+    (p, snap, wr) ∈ s.commits ∧
+    ∀ (i j : Nat) (c c' : List Event × Write), s.commits[i]? = some (p, c) → s.commits[j]? = some (p, c') → i = j :=
+  ⟨finished_ok_committed h p w snap wr hw hp, fun i j c c' hi hj => commit_once h i j p c c' hi hj⟩
+
+/-- a command that failed — lock busy included — contributed nothing -/
+theorem C02_failed_contributes_nothing {log0 : List Event} {ws : List (List Event → Except CmdErr Write)} {nr : Nat} {s : Sys}
+    (h : Reachable (Sys.init log0 ws nr) s) (p : Nat) (w : Writer) (hw : s.writers[p]? = some w)
+    (hp : w.phase = .finished .busy ∨ ∃ snap e, w.phase = .finished (.failed snap e)) : ∀ c ∈ s.commits, c.1 ≠ p :=
+  not_ok_not_committed h p w hw (by rcases hp with hp | hp; exact Or.inl hp; exact Or.inr (Or.inl hp))
+
+/-- the concurrent result is a serial run: any interleaving (and any crashes) of processes that each run one lock section
+    leaves a log that running the committed sections one at a time produces, hence every invariant holds -/
+theorem C02_serializable_invariants (log0 : List Event) (envs : List (Env × Sec)) (nr : Nat) (s : Sys)
+    (h : Reachable (Sys.init log0 (envs.map fun (es : Env × Sec) => secDecide es.1 es.2) nr) s)
+    (h0 : SecReach log0) (hok : ∀ es ∈ envs, SecOK es.1 es.2)
+    (hclock : ∀ (i p : Nat) (snap : List Event) (w : Write) (g : Graph), s.commits[i]? = some (p, snap, w) → replayRaw snap = .ok g →
+               ∀ es : Env × Sec, envs[p]? = some es → EnvOK g es.1) :
+    ∃ g, replayRaw s.log = .ok g ∧ AllInv g :=
+  secReach_allInv _ (conc_secReach log0 envs nr s h h0 hok hclock)
+
+/-- every CLI command is exactly one lock section (after the fix commits), so "command" and "section" coincide -/
+theorem C02_one_section_per_command (log : List Event) (env : Env) (req : Request) (w : Write)
+    (h : (runCmd log env req).write = some w) :
+    ∃ sec out, sectionOf env.agent req = .ok sec ∧ runSec log env sec = .ok (w, out) ∧ (runCmd log env req).log = applyWrite log w := by
+  unfold runCmd at h ⊢
+  cases hs : sectionOf env.agent req with
+  | error e => simp [hs] at h
+  | ok sec =>
+    cases hr : runSec log env sec with
+    | error e => simp [hs, hr] at h
+    | ok wo =>
+      obtain ⟨w', out⟩ := wo
+      simp [hs, hr] at h ⊢
+      subst h
+      trivial
+
 end Ergo
